@@ -33,6 +33,82 @@ CLAIMED = {
         note=TB + "Assumes slices <= isize::MAX and, for the length prefix, units < 2^32 bytes.",
         technique="Lean 4 proof (fun_induction over the scanner, bit-field arithmetic by omega) + correspondence check",
         ref="DESIGN.md section 5 C14"),
+    "C01": dict(
+        text="Kernel-checked on the model: the interleave schedule is the sorted permutation of both tracks' entries and restricts to each track in sample order for every reachable writer state; "
+             "the offset walk assigns to the j-th scheduled sample start + the sum of the sizes before it; every table entry i resolves (generic chunk walk of the Spec reader + slice) to exactly "
+             "frame i's bytes in the written file, for both layouts, with and without audio; the sample ranges are pairwise disjoint, inside the media data and cover it exactly; one-chunk and "
+             "one-sample-per-chunk stsc shapes are resolved by the generic walk. Payload framing is C14's theorem. Correspondence on (bytes, sync, offset, size) per sample; the Spec reader "
+             "dereferences every sample of the implementation's file and compares with the submitted frames (small-scope exhaustive histories + random histories incl. B-frames with audio).",
+        note=TB + "Found and fixed in /repo: stco indexed in decode order but pushed in PTS-schedule order (known_findings.json).",
+        technique="Lean 4 proof (mergeSort permutation/sublist lemmas, prefix-sum induction, reader∘writer on the model) + correspondence check",
+        ref="DESIGN.md section 5 C01"),
+    "C03": dict(
+        text="Kernel-checked: writer invariant (strictly increasing video DTS / non-decreasing audio PTS, every non-newest sample carries the exact next-minus-this delta, deltas fit 32 bits, "
+             "|pts-dts| fits i32) holds initially and is preserved by every API call; the durations written are exactly the consecutive DTS differences followed by the previous interval; telescoping: "
+             "the decode time of sample k is dts_k - dts_0 for every k (no drift); rle tables expand back exactly; composition offsets are exactly pts-dts and ctts is present iff one is non-zero; "
+             "mdhd holds the exact sum of durations and finalize refuses sums above 2^32-1; accepted API calls queue F64.ticks of their arguments. Correspondence on expanded stts/ctts/mdhd incl. long runs.",
+        note=TB + "tick = (secs*90000.0).round() as modelled by the soft-float (validated against the FPU by the correspondence run).",
+        technique="Lean 4 proof (state-machine invariant by induction over calls, telescoping sums) + correspondence check",
+        ref="DESIGN.md section 5 C03"),
+    "C04": dict(
+        text="Kernel-checked refinement: an invariant relates the concrete muxer state to the abstract history of accepted calls (preserved by every call, established by build); under it every "
+             "write/finish reply is ok exactly when the Spec.Contract violation list of that call is empty, and every error names a precondition that the call violated (explains). The soft-float "
+             "facts used (monotone ticks, lt/le duality, range test equivalence on genuine doubles) are proved; the scanner hypothesis is discharged by C14_split. "
+             "Correspondence + oracle: the implementation's accept/reject decisions and error variants are judged against Spec.Contract computed from the history of the implementation's own replies.",
+        note=TB + "Residual explicit hypotheses in the theorems: timestamps are decodings of 64-bit patterns (IsDouble), converted payload and file below 4 GiB (VideoSizeOk/AudioSizeOk/NoSizeLimit), NoStraddle (now unnecessary).",
+        technique="Lean 4 proof (refinement to an abstract history with a 22-field invariant) + correspondence check",
+        ref="DESIGN.md section 5 C04"),
+    "C05": dict(
+        text="Kernel-checked: every frame-writing call (five entry points) that replies an error returns a muxer state structurally EQUAL to its input; by induction, running a call list with the "
+             "rejected frame-writing calls removed yields the same final state and the same replies at the kept positions, hence the same file and statistics for any sink; no frame-writing call "
+             "panics in the model. Correspondence: twin execution on the real library (history vs history without its rejected calls) must give identical replies, stats and bytes.",
+        note=TB + "Found and fixed in /repo: first_video_pts recorded before acceptance; audio duration back-patched before validation.",
+        technique="Lean 4 proof (case analysis per call + induction over the call list) + twin-run correspondence",
+        ref="DESIGN.md section 5 C05"),
+    "C06": dict(
+        text="Kernel-checked: only finishStats produces chunks; a successful finish sets finished/finalized; afterwards every finish returns AlreadyFinished with no chunk and every write returns an "
+             "error leaving the whole state unchanged; a failed finalize also leaves finalized set (no second header). Statistics: frame counts are the queue lengths, bytes = previous count + total "
+             "chunk length, duration = maxEndPts/90000 where maxEndPts is proved to be the maximum over all samples of pts + duration. Correspondence with a recording sink tagging bytes per call.",
+        note=TB + "Found and fixed in /repo: duration used the last sample in decode order (too short for reordered streams).",
+        technique="Lean 4 proof (state-machine lemmas, max over fold) + correspondence check",
+        ref="DESIGN.md section 5 C06"),
+    "C08": dict(
+        text="Kernel-checked: size of the moov does not depend on the offset values (only on their number), so the two-pass placeholder construction is exact for every sample count, track mix and "
+             "metadata length; fast-start chunks are [ftyp, moov] + mdat with first offset ftypLen+|final moov|+8, standard chunks ftyp, mdat, moov with first offset ftypLen+8; both layouts use the "
+             "same tables except chunkOffsets and the same media bytes; for every reachable writer a successful finalize reads back (generic chunk walk) to every frame in order in either layout. "
+             "Correspondence: each history executed twice (fast on/off) on the real library, Spec-level movie abstraction must be equal and every sample must dereference correctly in both.",
+        note=TB + "Corner recorded in the theorems: zero-frame video-only files have an empty mdat in fast-start and none in the standard layout (pinned by the repository's fixture).",
+        technique="Lean 4 proof (serialised-size lemmas, reuse of C01 offset theorems) + twin-run correspondence",
+        ref="DESIGN.md section 5 C08"),
+    "C09": dict(
+        text="Kernel-checked: what the file says (stts/ctts, no edit list) is audioPT_k - videoPT_0 = (a_k - a_0) - (pts_0 - dts_0); the property's claim holds exactly when the first audio timestamp "
+             "equals the first video decode timestamp (C09_partial) and fails otherwise with error dts_0 - a_0 (C09_error); C09_counterexample(_api) exhibits video at 0 s + audio at 0.5 s (45000 ticks). "
+             "The unchanged code violates the property: recorded as known finding `no-edit-list` (needs an edts/elst feature). The check reports it as KNOWN-FINDING and would report any other deviation.",
+        note=TB + "Oracle understands edts/elst so that a future repair is recognised.",
+        technique="Lean 4 proof of the partial statement + kernel-checked counterexample; correspondence check; finding recorded",
+        ref="DESIGN.md section 5 C09"),
+    "C10": dict(
+        text="Kernel-checked over arbitrary op lists (write/flush/ready/dur/init): emitted samples ++ queued = accepted writes (nothing lost, duplicated, reordered); the k-th segment is "
+             "buildSegment samples (k+1) (first dts); empty flush is the identity; a write is rejected iff dts < last accepted dts and then leaves the state unchanged; queries are pure, init only fills "
+             "its cache and no reply depends on it; the Spec reader parses every built segment and recovers exactly the sample bytes through the data offset relative to the moof. "
+             "Correspondence: random op sequences + exhaustive sequences up to length 5/7 over a 6-letter alphabet.",
+        note=TB + "Reader theorem assumes 8 + payload < 2^32 and moof < 2^31 (the mdat size field is written without a guard; the counter-theorem C10_mdat_overflow shows the wrap).",
+        technique="Lean 4 proof (invariant by induction over the op list, reader∘writer round trip) + correspondence check",
+        ref="DESIGN.md section 5 C10"),
+    "C11": dict(
+        text="Kernel-checked: trun rows carry dts_{i+1}-dts_i, size, flags whose non-sync bit is the negation of sync, and pts-dts (exact within i32); every segment's tfdt is its first sample's DTS, "
+             "hence monotone, never earlier than the previous segment's last decode time, and equal to first DTS minus the constant 0 for any input; every init reply equals buildInit(config). "
+             "Correspondence incl. exhaustive DTS sequences x all segmentations.",
+        note=TB + "Found and fixed in /repo: tfdt was 0 for the first segment and last+average afterwards (moved backwards).",
+        technique="Lean 4 proof (run invariants, reader on built segments) + correspondence check",
+        ref="DESIGN.md section 5 C11"),
+    "C15": dict(
+        text="Kernel-checked: the schedule is the unique sorted permutation of both tracks' entries; restricted to either track it is the track in sample order (for every reachable state); any two "
+             "entries are ordered by (timestamp, video before audio, index); when pts = dts the key is the presentation time, so no sample is stored after a later-timestamped sample of the other track. "
+             "Correspondence on absolute offsets of all samples, all submission orders, both layouts.",
+        note=TB,
+        technique="Lean 4 proof (List.mergeSort permutation/sortedness/sublist lemmas) + correspondence check",
+        ref="DESIGN.md section 5 C15"),
     "C18": dict(
         text="Kernel-checked for EVERY day count: the model's year/month loops yield a valid civil date whose day number (calendar defined by summation) is the input, fuel always suffices; the "
              "printed ISO-8601 text is the zero-padded decimal of those fields (20 bytes up to year 9999); every lower-case 3-letter language code round-trips through the 15-bit mdhd field, default "
